@@ -98,6 +98,9 @@ func (t *RecordingTransport) RoundTrip(req *http.Request) (*http.Response, error
 	ex := t.w.Log.Begin(&Exchange{Link: t.link, Method: req.Method, Scheme: req.URL.Scheme, Host: host, Target: req.URL.RequestURI(), Path: req.URL.Path,
 		RawQuery: req.URL.RawQuery, ReqHdr: cloneHeader(req.Header), ReqBody: body})
 	defer t.w.Log.End(ex)
+	if t.link == L3 && (strings.HasSuffix(req.URL.Path, "/members") || strings.HasSuffix(req.URL.Path, "/sa-token")) {
+		ex.Background = true
+	}
 	ep := endpointOf(req.URL.Path)
 	t.mu.Lock()
 	if t.inflight == nil {
